@@ -8,6 +8,7 @@ Oracle (independent, on the implementation only): the full pipelines Newick / NE
 single Tree, with and without TRANSLATE) / NeXML must give back the same trees.
 """
 import json
+import copy
 import random
 import time
 
@@ -84,6 +85,45 @@ def gen_pool(rng, n, allow_struct1, no_space=False):
         low.add(s.lower())
         out.append(s)
     return out
+
+
+def apply_history(create, hist):
+    """order of a TaxonNamespace whose taxa were created in order `create` and then re-ordered:
+    "sort" = TaxonNamespace.sort() (by label), "reverse", ["readd", l] = remove_taxon + add_taxon (goes to the end)"""
+    cur = list(create)
+    for op in hist:
+        if op == "sort":
+            cur.sort()
+        elif op == "reverse":
+            cur.reverse()
+        else:
+            cur.remove(op[1])
+            cur.append(op[1])
+    return cur
+
+
+def add_history(case, rng, p=0.45):
+    """give the namespace a creation order and a re-ordering history (accession order != current order);
+    case["ns"] becomes the CURRENT order"""
+    labels = list(case["ns"])
+    case["create"] = labels
+    case["hist"] = []
+    if labels and rng.random() < p:
+        create = list(labels)
+        rng.shuffle(create)
+        hist = []
+        for _ in range(rng.randint(1, 3)):
+            k = rng.random()
+            if k < 0.4:
+                hist.append("sort")
+            elif k < 0.7:
+                hist.append("reverse")
+            else:
+                hist.append(["readd", rng.choice(create)])
+        case["create"] = create
+        case["hist"] = hist
+    case["ns"] = apply_history(case["create"], case["hist"])
+    return case
 
 
 def to_spec(t, rng, taxa, opts):
@@ -164,7 +204,9 @@ def gen_roundtrip_case(rng, maxleaves):
         wkw["suppress_rooting"] = True
     if rng.random() < 0.05:
         wkw["suppress_edge_lengths"] = True
-    return {"kind": "roundtrip", "ns": used, "trees": specs, "wkw": wkw, "internal_taxa": internal_taxa}
+    if rng.random() < 0.06:
+        wkw[rng.choice(["suppress_leaf_taxon_labels", "suppress_internal_taxon_labels", "suppress_internal_node_labels"])] = True
+    return add_history({"kind": "roundtrip", "ns": used, "trees": specs, "wkw": wkw, "internal_taxa": internal_taxa}, rng)
 
 
 SOUP = ["(", ")", ",", ":", ";", "a", "b", "c", "A", "'q r'", "'it''s'", "[c]", "[&R]", "[&U]", "[ &r ]", "[x[y]z]",
@@ -230,7 +272,17 @@ def fmt_len(x):
 def build_treelist(case):
     import dendropy
     ns = dendropy.TaxonNamespace()
-    taxa = {l: ns.new_taxon(l) for l in case["ns"]}
+    taxa = {l: ns.new_taxon(l) for l in case.get("create", case["ns"])}
+    for op in case.get("hist", []):
+        if op == "sort":
+            ns.sort()
+        elif op == "reverse":
+            ns.reverse()
+        else:
+            ns.remove_taxon(taxa[op[1]])
+            ns.add_taxon(taxa[op[1]])
+    if [t.label for t in ns] != list(case["ns"]):
+        raise RuntimeError("harness: namespace history gave order %r, expected %r" % ([t.label for t in ns], case["ns"]))
     tl = dendropy.TreeList(taxon_namespace=ns)
     for rooted, sp in case["trees"]:
         tree = dendropy.Tree(taxon_namespace=ns)
@@ -369,11 +421,21 @@ def observe(case):
     # full pipelines for the oracle
     pipes = {}
     pipes["newick"] = pipeline(tl, "newick", wkw, rkw)
+    if not case["trees"]:
+        # an empty tree list: list pipelines only
+        pipes["nexus"] = pipeline(tl, "nexus", dict(wkw), rkw)
+        pipes["nexml"] = pipeline(tl, "nexml", {}, {})
+        obs["pipes"] = pipes
+        return obs
     pipes["newick-tree"] = pipeline(tl, "newick", wkw, rkw, single=True)
     nexus_w = {k: v for k, v in wkw.items()}
     pipes["nexus"] = pipeline(tl, "nexus", nexus_w, rkw)
     pipes["nexus-translate"] = pipeline(tl, "nexus", dict(nexus_w, translate_tree_taxa=True), rkw)
     pipes["nexus-tree"] = pipeline(tl, "nexus", nexus_w, rkw, single=True)
+    if any(wkw.get(f) for f in LABEL_FLAGS):
+        # label-suppressing options: Newick pipelines only (the NEXUS TAXA block still lists every taxon)
+        obs["pipes"] = {k: v for k, v in pipes.items() if k.startswith("newick")}
+        return obs
     if not any(k in wkw for k in ("suppress_rooting", "suppress_edge_lengths", "unquoted_underscores", "preserve_spaces")) \
             and not case.get("internal_taxa"):
         pipes["nexml"] = pipeline(tl, "nexml", {}, {})
@@ -385,6 +447,30 @@ def observe(case):
 # ----------------------------------------------------------------------------------------------
 # oracle: the property, stated naively on the implementation's behaviour
 # ----------------------------------------------------------------------------------------------
+
+LABEL_FLAGS = ("suppress_leaf_taxon_labels", "suppress_internal_taxon_labels", "suppress_internal_node_labels")
+
+
+def erase_spec(sp, wkw):
+    """the tree without the attributes the writer options suppress (labels; lengths are handled in expected_tree)"""
+    leaf = not sp["kids"]
+    tx, lb = sp["taxon"], sp["label"]
+    if leaf and wkw.get("suppress_leaf_taxon_labels"):
+        tx = None
+    if not leaf and wkw.get("suppress_internal_taxon_labels"):
+        tx = None
+    if not leaf and wkw.get("suppress_internal_node_labels"):
+        lb = None
+    return {"taxon": tx, "label": lb, "len": sp["len"], "kids": [erase_spec(k, wkw) for k in sp["kids"]]}
+
+
+def erased_case(case):
+    if not any(case["wkw"].get(f) for f in LABEL_FLAGS):
+        return case
+    c = dict(case)
+    c["trees"] = [[r, erase_spec(sp, case["wkw"])] for r, sp in case["trees"]]
+    return c
+
 
 def expected_tree(sp, schema, wkw, is_root=True, got_root_len=None):
     """what the property promises to get back for spec node sp"""
@@ -428,6 +514,8 @@ def classify(case, pipe, got_tree=None, want_tree=None):
     """narrow key for a failing round trip"""
     if pipe.startswith("nexml") and got_tree is not None and got_tree != want_tree and got_tree == zero_missing(want_tree):
         return "nexml-missing-length-zero"
+    if not case["trees"] and pipe.startswith("newick"):
+        return "empty-tree-list-newick"
     if pipe.startswith("nexml") and not case["ns"]:
         return "nexml-empty-namespace"
     if pipe.startswith("nexml"):
@@ -447,6 +535,10 @@ def classify(case, pipe, got_tree=None, want_tree=None):
             if nd["kids"] and nd["label"]:
                 labels.append(nd["label"])
     fmt = pipe.split("-")[0]
+    if fmt == "nexus":
+        # TAXLABELS / TRANSLATE list every member of the namespace: `;` (and `,` in TRANSLATE) written quoted
+        # are compared with the statement punctuation regardless of the quoting (same input class as F5)
+        labels = labels + list(case["ns"])
     if fmt in ("newick", "nexus"):
         if any(l in tuple(STRUCT5) for l in labels):
             return "quoted-structural-char-label"
@@ -460,6 +552,7 @@ def classify(case, pipe, got_tree=None, want_tree=None):
 def oracle(case, obs):
     if case["kind"] != "roundtrip":
         return None
+    case = erased_case(case)
     wkw = case["wkw"]
     for pipe, got in sorted(obs["pipes"].items()):
         fmt = pipe.split("-")[0]
@@ -615,6 +708,13 @@ def witness_cases():
                 "trees": [[None, {"taxon": None, "label": None, "len": None, "kids": [leaf("a"), dict(blank)]}]]})
     out.append({"kind": "roundtrip", "ns": ["a"], "wkw": {}, "internal_taxa": False,
                 "trees": [[None, {"taxon": None, "label": None, "len": None, "kids": [dict(blank), leaf("a")]}]]})
+    # namespaces whose current order differs from their accession order (sort / reverse / remove and re-add), with labels
+    # that are other members' 1-based positions: label ORDER must survive, TRANSLATE tokens are accession index + 1
+    for create, hist in ((["c", "a", "b"], ["sort"]), (["2", "3", "1"], ["reverse"]), (["1", "b", "2"], [["readd", "1"]]),
+                         (["b", "3", "a", "1"], ["sort", ["readd", "3"], "reverse"])):
+        out.append({"kind": "roundtrip", "create": list(create), "hist": list(hist), "ns": apply_history(create, hist),
+                    "wkw": {}, "internal_taxa": False,
+                    "trees": [[True, {"taxon": None, "label": None, "len": None, "kids": [leaf(l, 1.0) for l in create[:3]]}]]})
     return out
 
 
@@ -671,6 +771,8 @@ def search(ctx, budget_s):
 
 def count_case(ctx, case):
     ctx.count("kind:" + case["kind"])
+    if case.get("hist"):
+        ctx.count("namespace:reordered")
     if case["kind"] == "reader":
         return
     ctx.count("ntrees:%d" % len(case["trees"]))
@@ -700,7 +802,8 @@ def run(tier, seed, replay=None):
         "the tokenizer's character sets, both protect_regex classes and the rooting tokens are regenerated from the source on every run (coq/Gen/CharClasses.v)",
         "edge-length numerals: Python float formatting/parsing is abstract (render_len/parse_len with the round-trip premise as a Section hypothesis); the harness tabulates float() per token",
         "str.lower is an uninterpreted function in the theorems; in the correspondence run it is character-wise (checked by the harness on every string)",
-        "NEXUS block layer and NeXML are exercised on the implementation against the oracle only (no Coq model)",
+        "NEXUS layer: coq/Model/C02Nexus.v models documents of the shape NexusWriter produces for one tree list over one namespace (TITLE/LINK/CHARACTERS/SETS statements give NUnmodelled); accession_index = position",
+        "NeXML: coq/Model/C02Nexml.v models writer and reader at element level (otu/node/edge/rootedge records, id maps, root attribute); the XML text layer (xml library, quoteattr, id rendering, float text) is trusted: the harness parses the written text with ElementTree into the records",
     ]
     if replay:
         r = json.load(open(replay))["replay"]
@@ -716,6 +819,10 @@ def run(tier, seed, replay=None):
     n = 500 if tier == "quick" else 8000
     maxleaves = 8 if tier == "quick" else 20
     cases = list(witness_cases())
+    if "empty-tree-list-newick" in ctx.known:
+        # proposed finding (exercised once it is listed): an empty TreeList is written to Newick as the empty
+        # document, which NewickReader rejects
+        cases.append({"kind": "roundtrip", "ns": ["a"], "trees": [], "wkw": {}, "internal_taxa": False})
     for _ in range(n):
         if ctx.rng.random() < 0.3:
             cases.append(gen_reader_case(ctx.rng))
@@ -727,6 +834,28 @@ def run(tier, seed, replay=None):
         count_case(ctx, c)
     core.corr_stage(ctx, cases, observe, to_coq, HEADER, "case_ok", oracle=oracle, show_fn="case_show",
                     nontrivial=nontrivial, search=search, shard=250, sample_fn=sample_fn)
+    # NEXUS layer (TAXA block + TREES block, with/without TRANSLATE): Model/C02Nexus.v vs NexusWriter/NexusReader
+    from dv import c02_nexus
+    ncases = []
+    for w in witness_cases():
+        if w.get("hist"):            # fixed re-ordered namespaces, with and without TRANSLATE
+            for tr in (False, True):
+                ncases.append(dict(copy.deepcopy(w), kind="nexus", translate=tr))
+    ncases += [c02_nexus.gen_case(ctx.rng, maxleaves) for _ in range(200 if tier == "quick" else 3000)]
+    for c in ncases:
+        ctx.count("nexus:translate" if c["translate"] else "nexus:plain")
+        if any(l.isdigit() for l in c["ns"]):
+            ctx.count("nexus:numeric-labels")
+    core.corr_stage(ctx, ncases, c02_nexus.observe, c02_nexus.to_coq, c02_nexus.HEADER, "ncase_ok", oracle=c02_nexus.oracle,
+                    show_fn="ncase_show", nontrivial=c02_nexus.nontrivial, search=search, shard=250,
+                    label="nexus correspondence", sample_fn=c02_nexus.sample_fn)
+    # NeXML at element level: Model/C02Nexml.v vs NexmlWriter/NexmlReader (XML text layer trusted)
+    from dv import c02_nexml
+    xcases = [c02_nexml.gen_case(ctx.rng, maxleaves) for _ in range(150 if tier == "quick" else 2000)]
+    ctx.count("nexml:cases", len(xcases))
+    core.corr_stage(ctx, xcases, c02_nexml.observe, c02_nexml.to_coq, c02_nexml.HEADER, "xcase_ok", oracle=c02_nexml.oracle,
+                    show_fn="xcase_show", nontrivial=c02_nexml.nontrivial, search=search, shard=250,
+                    label="xmlelement correspondence", sample_fn=c02_nexml.sample_fn)
     return ctx.finish(
         level="proof",
         rule="random rose trees (1-8 leaves quick / 1-20 thorough, unifurcations, single nodes, 1-3 trees per list) x labels biased to "
